@@ -31,6 +31,8 @@ TOKENS = [
     "text/plain; charset=", "\t",
     # language negotiation: regional variants accepted / refused next to their primary tag
     "en-GB", "en;q=0.8", "en-US;q=0", "de-AT;q=0", "de;q=0", "fi", "fil-PH",
+    # q values float() would accept or choke on
+    "q=0x1", "q=1-1", "q=1e0", "q=0_1", "q=1.", "q=.5",
     # byte ranges at their boundaries: inverted by one, empty, touching, spaced
     "bytes=5-4", "bytes=1-0", "5-4", "1-0", "bytes=0-0,2-1", "bytes= 1 - 0", "bytes=5-5", "bytes=0-", "bytes=-1", "0-0,0-0", "2-1", ",5-",
     # quoted list items that are empty or blank up to the '=' once the quotes are gone
